@@ -19,7 +19,7 @@ use super::{
     deletion::DeletionQuery,
     edge::EdgeDeletionEntry,
     mutation_query::MutationQuery,
-    node::{Node, NodeDeletionEntry, NodeIdentifier},
+    node::{extract_json, Node, NodeDeletionEntry, NodeIdentifier},
     query::{PreparedQueries, Query},
     query_language::{
         data_model_parser::DataModel, deletion_parser::DeletionParser,
@@ -1269,6 +1269,23 @@ impl GraphDatabase {
 
             match validate_json_for_entity(entity, &node._json) {
                 Ok(_) => {
+                    //full text indexing of the received node, like the local mutation does
+                    //old_fts_str has been filled by Node::filter_existing
+                    if entity.enable_full_text {
+                        //computed before mutating node_to_insert: 'node' borrows it
+                        let node_fts_str = match &node._json {
+                            Some(json_str) => match fts_string(json_str) {
+                                Ok(current) => Some(current),
+                                Err(_) => {
+                                    invalid_nodes.push(node_to_insert.id);
+                                    continue;
+                                }
+                            },
+                            None => None,
+                        };
+                        node_to_insert.index = true;
+                        node_to_insert.node_fts_str = node_fts_str;
+                    }
                     node_to_insert.entity_name = Some(name);
                     valid_nodes.push(node_to_insert)
                 }
@@ -1357,6 +1374,16 @@ impl GraphDatabase {
 struct QueryCacheEntry {
     parser: Arc<QueryParser>,
     prepared_query: Arc<PreparedQueries>,
+}
+
+///
+/// text indexed by the full text search for a node's json, same extraction as the local mutation
+///
+fn fts_string(json_str: &str) -> Result<String> {
+    let json: serde_json::Value = serde_json::from_str(json_str)?;
+    let mut current = String::new();
+    extract_json(&json, &mut current)?;
+    Ok(current)
 }
 
 fn build_path(data_folder: impl Into<PathBuf>, file_name: &String) -> Result<PathBuf> {
